@@ -513,3 +513,119 @@ func vpRun(k0, k1, k2 int) {
 	}
 	_ = filepath.Separator
 }
+
+// ---- a two-dimensional array of files ----
+
+const vp2dSrc = `
+filetype txt;
+
+stage S(
+    in  int     x,
+    out txt[][] grid,
+    src comp    "bin",
+)
+
+pipeline P(
+    in  int     x,
+    out txt[][] grid,
+)
+{
+    call S(
+        x = self.x,
+    )
+
+    return (
+        grid = S.grid,
+    )
+}
+
+call P(
+    x = 1,
+)
+`
+
+func vp2dGraph() *Pipestance {
+	disableUniquification = false
+	return verifCached("vp2dGraph", func() any {
+		vpFS = map[string]*vpNode{}
+		rt := &Runtime{Config: &RuntimeOptions{JobMode: "local", VdrMode: VdrDisable}, mrjob: "/m/mrjob", adaptersPath: "/m/adapters"}
+		_, _, ps, err := rt.instantiatePipeline([]byte(vp2dSrc), "/m/p.mro", "ps", "/ps", nil, "none", nil, false, true, context.Background())
+		if err != nil {
+			panic("fixture does not instantiate: " + err.Error())
+		}
+		return ps
+	}).(*Pipestance)
+}
+
+// H_C13_array2d(n0, n1): the top-level output is a two-dimensional array of
+// files, rows of n0 and n1 files written inside the pipestance.
+//
+//	C13: every file nested in the array of arrays is materialised under outs/
+//	     with its identity, the rewritten _outs keeps the shape and designates
+//	     those files.
+func H_C13_array2d(n0, n1 int) {
+	ps := vp2dGraph()
+	vpFS = map[string]*vpNode{}
+	vpWritten = nil
+	for _, d := range []string{"/ps", "/ps/P", "/ps/P/S", "/ps/P/S/fork0", vpFilesDir} {
+		vpFS[d] = &vpNode{kind: 2}
+	}
+	ns := []int{n0, n1}
+	var inodes [][]int
+	doc := []byte(`{"grid":[`)
+	for r, n := range ns {
+		if r > 0 {
+			doc = append(doc, ',')
+		}
+		doc = append(doc, '[')
+		row := make([]int, n)
+		for c := 0; c < n; c++ {
+			p := vpFilesDir + "/g" + string(rune('0'+r)) + string(rune('0'+c))
+			row[c] = 700 + 10*r + c
+			vpFS[p] = &vpNode{kind: 1, inode: row[c]}
+			if c > 0 {
+				doc = append(doc, ',')
+			}
+			doc = append(doc, (`"` + p + `"`)...)
+		}
+		inodes = append(inodes, row)
+		doc = append(doc, ']')
+	}
+	doc = append(doc, `]}`...)
+	vpOutsRaw = doc
+	err := ps.node.forks[0].postProcess(context.Background())
+	verifCover("2-d array post-processed")
+	verifAssert(err == nil, "C13: post-processing a two-dimensional array of files reports no error")
+	if vpWritten == nil {
+		verifAssert(false, "C13: the rewritten _outs is stored")
+		return
+	}
+	out, merr := vpWritten.MarshalJSON()
+	verifAssert(merr == nil, "C13: the rewritten _outs encodes")
+	if merr != nil {
+		return
+	}
+	var top LazyArgumentMap
+	var rows []json.RawMessage
+	if vjUnmarshal(out, &top) != nil || vjUnmarshal(top["grid"], &rows) != nil || len(rows) != 2 {
+		verifAssert(false, "C13: the rewritten _outs has the shape of the outputs")
+		return
+	}
+	for r := range ns {
+		var cells []json.RawMessage
+		if vjUnmarshal(rows[r], &cells) != nil || len(cells) != ns[r] {
+			verifAssert(false, "C13: the rewritten _outs has the shape of the outputs")
+			return
+		}
+		for c := range cells {
+			q, isStr := vpUnquote(vjTrim(cells[c]))
+			verifAssert(isStr, "C13: an existing output file is still named in the rewritten _outs")
+			if !isStr {
+				continue
+			}
+			_, n := vpResolve(path.Clean(q))
+			verifAssert(n != nil && n.kind == 1 && n.inode == inodes[r][c], "C13: the rewritten _outs designates the same file (identity unchanged)")
+			verifAssert(strings.HasPrefix(q, "/ps/outs/"), "C13: a file nested in an array of arrays is materialised under outs/")
+		}
+	}
+}
